@@ -18,7 +18,8 @@ Inductive callid :=
 | KTestRunning | KClearRunning | KTimerCreate | KTimerStart | KTimerCancel | KSendHeartbeat
 | KStoreRequest | KStoreResponse | KAppendResponse | KWaitFor | KGetFrame | KRpcRemove
 | KTestClosing | KUnlessClosing | KSendConnClose | KIfWasOpen
-| KExcHead | KExcRemove | KExcPop | KOther.
+| KExcHead | KExcRemove | KExcPop
+| KConsumeRpc | KConsumeAddTag | KBindCallback | KLookupCallback | KOther.
 
 Inductive tok :=
 | TWith (l : lockid) | TEndWith
@@ -54,6 +55,8 @@ Definition callid_eqb (a b : callid) : bool :=
   | KWaitFor, KWaitFor | KGetFrame, KGetFrame | KRpcRemove, KRpcRemove
   | KTestClosing, KTestClosing | KUnlessClosing, KUnlessClosing | KSendConnClose, KSendConnClose
   | KIfWasOpen, KIfWasOpen | KExcHead, KExcHead | KExcRemove, KExcRemove | KExcPop, KExcPop
+  | KConsumeRpc, KConsumeRpc | KConsumeAddTag, KConsumeAddTag | KBindCallback, KBindCallback
+  | KLookupCallback, KLookupCallback
   | KOther, KOther => true
   | _, _ => false
   end.
